@@ -1,10 +1,15 @@
 package main
 
-// main.go — whole-broker harness: real Engine + MemoryBackend (wrapped by
-// RecBackend) over TCP loopback, scripted MQTT peers.  Commands c13, c14, c15.
+// main.go — whole-broker harness: real Engine + MemoryBackend (wrapped by RecBackend, peer.go) over TCP loopback,
+// scripted MQTT peers.  Commands c06 c08 c12 c13 c14 c15 c16 (scenario groups of the properties of those names).
 //
-// Output: `scn <n> <name>`, `sys <n> <event> <client>` (life-cycle log for the
-// Coq scanners of coq/Broker/System.v), `direct <clause> scn=<n> ok|FAIL <detail>`.
+//	main.go   start/stop of a broker instance, payload numbering, the order oracle, the C08 rounds
+//	peer.go   scripted peer, RecBackend: life-cycle log, gates, fault injection by call site
+//	judge.go  verdict lines, watchdog, scenario context (lifecycle / shutdown / goroutines at every end), clauses on the backend log
+//	c13.go c14.go c15.go extra.go   the scenarios
+//
+// Output: `scn <n> <name>`, `sys <n> <backend log line>`, `info …`, `direct <clause> scn=<n> ok|FAIL <detail>`.
+// Every clause is evaluated on what peers and the recording backend observed of the implementation alone.
 
 import (
 	"fmt"
@@ -19,8 +24,7 @@ import (
 )
 
 func main() {
-	hx.Main(map[string]func(*hx.Ctx){"c06": runC06, "c08": runC08, "c12": runC12, "c13": runC13, "c14": runC14, "c15": runC15, "c16": runC16,
-		"e2e": func(c *hx.Ctx) { endToEnd(newOut(c), c) }, "wrap": func(c *hx.Ctx) { wrapResend(newOut(c), c) }})
+	hx.Main(map[string]func(*hx.Ctx){"c06": runC06, "c08": runC08, "c12": runC12, "c13": runC13, "c14": runC14, "c15": runC15, "c16": runC16})
 }
 
 type sys struct {
@@ -268,4 +272,3 @@ func runC08(c *hx.Ctx) {
 	dyingWindow(o, c)
 	coSubscriber(o, c)
 }
-
